@@ -132,14 +132,15 @@ def _history(runs):
                  st.get("on_wire", 0) > runs and st.get("connections", 0) > runs and st.get("runs_with_write_fault", 0) > runs // 10, detail=json.dumps(st))
         h.oblige("on every explored history of sends, clock advances, refusals, latencies, back-pressure, write faults and peer closes: only submitted "
                  "messages on the wire, whole frames, acceptance order and at most once without write faults, at most 1 + retries otherwise, nothing at "
-                 "or after expiry, capacity rule exact at every enqueue, one open connection, connected again after the network heals",
+                 "or after expiry, capacity rule exact at every enqueue, one open connection, connected again after the network heals; after a close() in the "
+                 "middle of it: not open, not connected, no connection left open, no attempt until open_socket()",
                  res.get("n_violating_runs", 1) == 0, detail=json.dumps(res.get("violations", [])[:2])[:1500])
         h.cover("histories explored")
     return script
 
 
-oset("socket.histories.native-exploration", ["C01", "C02", "C07", "C16"], [], kind="library-validation",
+oset("socket.histories.native-exploration", ["C01", "C02", "C07", "C15", "C16"], [], kind="library-validation",
      bounded="500 random fault scripts (5..40 steps each) on the real socket, virtual-time loop; end-to-end companion of the step contracts "
              "and of lemmas/Fifo.lean / Conn.lean; proves nothing")(_history(500))
-oset("socket.histories.native-exploration.thorough", ["C01", "C02", "C07", "C16"], [], kind="library-validation", tier="thorough",
+oset("socket.histories.native-exploration.thorough", ["C01", "C02", "C07", "C15", "C16"], [], kind="library-validation", tier="thorough",
      bounded="20000 random fault scripts (5..40 steps each) on the real socket, virtual-time loop; proves nothing")(_history(20000))
